@@ -9,8 +9,8 @@ are covered by the correspondence run only.
 import StunVerif.Props.C02
 import StunVerif.Props.C04
 import StunVerif.Props.C08
-import StunVerif.Props.C16
 import StunVerif.Lemmas.Total
+import StunVerif.Lemmas.Police
 namespace StunVerif.C01
 open StunVerif
 
